@@ -1,6 +1,7 @@
 package main
 
 import (
+	"encoding/json"
 	"flag"
 	"fmt"
 	"os"
@@ -30,6 +31,7 @@ func main() {
 	untr := flag.String("untrusted", "", "dev: comma separated untrusted param indices")
 	pats := flag.String("pkgs", "./...", "dev: package patterns (comma separated)")
 	repo := flag.String("repo", "", "repository root (default /repo)")
+	replay := flag.String("replay", "", "re-evaluate the obligation recorded in a replay file on the current tree")
 	flag.Parse()
 	if *repo != "" {
 		repoDir = *repo
@@ -52,6 +54,9 @@ func main() {
 	}
 	if *dev != "" {
 		os.Exit(devMain(*dev, *fnPat, *untr, strings.Split(*pats, ",")))
+	}
+	if *replay != "" {
+		os.Exit(replayMain(*replay))
 	}
 	pr := registry[*prop]
 	if pr == nil {
@@ -141,5 +146,44 @@ func devMain(mode, fnPat, untr string, pats []string) int {
 	default:
 		return devMore(p, mode, fnPat, untr)
 	}
+	return 0
+}
+
+// replayMain re-runs the property of a replay file and reports whether the recorded obligation is still violated.
+func replayMain(path string) int {
+	b, err := os.ReadFile(path)
+	if err != nil {
+		fmt.Println(err)
+		return 2
+	}
+	var rf struct {
+		Property   string     `json:"property"`
+		Obligation Obligation `json:"obligation"`
+		FindingKey string     `json:"finding_key"`
+	}
+	if err := json.Unmarshal(b, &rf); err != nil {
+		fmt.Println(err)
+		return 2
+	}
+	pr := registry[rf.Property]
+	if pr == nil {
+		fmt.Println("unknown property in replay file:", rf.Property)
+		return 2
+	}
+	r := NewReport(pr.id, "quick", 0)
+	p, err := LoadProg(pr.patterns, "", nil)
+	if err != nil {
+		fmt.Println("cannot load the repository:", err)
+		return 2
+	}
+	pr.run(p, r)
+	for _, o := range r.Obls {
+		if !o.OK && !o.Info && o.FindingKey() == rf.FindingKey {
+			fmt.Printf("still violated: rule=%s at %s func=%s key=%s :: %s\n", o.Rule, o.Pos, o.Func, o.Key, o.Detail)
+			fmt.Printf("VIOLATION property=%s replay=%s\n", rf.Property, path)
+			return 1
+		}
+	}
+	fmt.Printf("obligation %s no longer violated on the current tree\n", rf.FindingKey)
 	return 0
 }
